@@ -326,7 +326,28 @@ func checkC17(p *Prog, res *Result, tier string) {
 		construct := funcName(g) + ": marks are popped only when older than the TTL"
 		ttlF := p.structField("pkg/backend/scanner", "Config", "TTL")
 		n, bad := 0, false
-		for _, pc := range callsIn(g) {
+		// the loop over the marks may live in a helper of the producer: the producer's region is the function plus the
+		// same-package functions it calls (two levels)
+		region := []*ssa.Function{g}
+		inRegion := map[*ssa.Function]bool{g: true}
+		for lvl, frontier := 0, []*ssa.Function{g}; lvl < 2; lvl++ {
+			var next []*ssa.Function
+			for _, f := range frontier {
+				for _, c := range callsIn(f) {
+					if sc := c.Common().StaticCallee(); sc != nil && sc.Pkg == g.Pkg && sc.Blocks != nil && !inRegion[sc] && sc.Signature.Recv() != nil && types.Identical(sc.Signature.Recv().Type(), g.Signature.Recv().Type()) {
+						inRegion[sc] = true
+						region = append(region, sc)
+						next = append(next, sc)
+					}
+				}
+			}
+			frontier = next
+		}
+		var regionCalls []ssa.CallInstruction
+		for _, f := range region {
+			regionCalls = append(regionCalls, callsIn(f)...)
+		}
+		for _, pc := range regionCalls {
 			sc := pc.Common().StaticCallee()
 			if sc == nil || sc.Name() != "pop" && !isListPop(sc) {
 				continue
@@ -369,7 +390,7 @@ func checkC17(p *Prog, res *Result, tier string) {
 		{
 			c2 := funcName(g) + ": the timeout revision is that of a mark whose age was tested"
 			aged := map[ssa.Value]bool{}
-			for _, c := range callsIn(g) {
+			for _, c := range regionCalls {
 				sc := c.Common().StaticCallee()
 				if sc == nil || sc.Pkg == nil || sc.Pkg.Pkg.Path() != "time" || sc.Name() != "Since" {
 					continue
@@ -407,6 +428,17 @@ func checkC17(p *Prog, res *Result, tier string) {
 							walk(e, d+1, seen)
 						}
 						return
+					}
+					// the record handed back by a helper of the region: whatever that helper returns
+					if hc, ok := v.(*ssa.Call); ok && !aged[v] {
+						if h := hc.Common().StaticCallee(); h != nil && inRegion[h] && h.Signature.Results().Len() == 1 {
+							for _, hb := range h.Blocks {
+								if hr, ok := hb.Instrs[len(hb.Instrs)-1].(*ssa.Return); ok {
+									walk(hr.Results[0], d+1, seen)
+								}
+							}
+							return
+						}
 					}
 					nRec++
 					if _, fresh := v.(*ssa.Alloc); fresh || aged[v] {
